@@ -26,6 +26,8 @@
 import LccModel.Model.Loader
 import LccModel.Model.LoaderSpec
 import LccModel.Model.Run
+import LccModel.Model.SuiteObject
+import LccModel.Model.Deps
 
 namespace LccModel.Expand
 open LccModel.Report (Path)
@@ -41,6 +43,17 @@ inductive Naming where
   | format (name desc : List Seg)
   | custom (f : String → String → Params → Nat → String × String)
 
+/-- One argument of `@lcc.depends_on(...)`: a test path (names contain no dot) or a callable — a predicate on tests,
+    named by a key; what the key means (`Test → Bool`) is a parameter of everything that evaluates it. -/
+inductive DepArg where
+  | path (p : Path)
+  | pred (key : String)
+  deriving DecidableEq, Repr
+
+def DepArg.path? : DepArg → Option Path
+  | .path p => some p
+  | .pred _ => none
+
 /-- A `@lcc.test` method of a suite class. -/
 structure TestDecl where
   attr : String                    -- `func.__name__` (the `dir()` key)
@@ -50,8 +63,9 @@ structure TestDecl where
   md : Meta := {}                  -- `@lcc.tags`, `@lcc.prop`, `@lcc.link`
   disabled : Disabled := .no       -- `@lcc.disabled(reason?)`
   hidden : Bool := false           -- `@lcc.hidden()` / a false `@lcc.visible_if`
-  deps : List Path := []           -- `@lcc.depends_on("a.b.t", …)`: test paths (names contain no dot)
+  deps : List DepArg := []         -- `md.dependencies`: the arguments of ALL the `@lcc.depends_on(…)` decorators, in application order
   param : Option (List Params × Naming) := none   -- `@lcc.parametrized(sets, naming_scheme)`: the dicts `parameters_source` yields
+  args : List String := []         -- the parameters of the function after `self` (`get_callable_args`): parameter names and fixture names
 
 structure ClsHead where
   attr : String
@@ -61,6 +75,7 @@ structure ClsHead where
   md : Meta := {}
   disabled : Disabled := .no
   hidden : Bool := false
+  obj : SuiteObj.Obj := {}           -- the attribute layers of the instance `class_()` (instance dict, class dict, base classes)
 
 /-- A `@lcc.suite` class: test methods and nested suite classes. -/
 inductive SuiteDecl where
@@ -81,9 +96,13 @@ structure Test where
   rank : Nat
   md : Meta
   disabled : Disabled
-  deps : List Path
+  deps : List DepArg
   params : Params
+  args : List String := []
   deriving DecidableEq, Repr
+
+/-- `Test.get_fixtures()`: the arguments of the callback that are not parameters of this test -/
+def Test.fixtures (t : Test) : List String := t.args.filter (fun a => !(t.params.any (fun kv => kv.1 == a)))
 
 structure SuiteHead where
   name : String
@@ -91,6 +110,11 @@ structure SuiteHead where
   rank : Nat
   md : Meta := {}
   disabled : Disabled := .no
+  injected : List (String × List String) := []  -- `Suite._injected_fixtures`: fixture name ↦ the attribute names injecting it
+  setupSuite : Option (List String) := none    -- the `setup_suite` hook (its parameters), if the object has one
+  teardownSuite : Bool := false
+  setupTest : Bool := false
+  teardownTest : Bool := false
   deriving DecidableEq, Repr
 
 inductive Suite where
@@ -117,7 +141,8 @@ def ClsHead.suiteDesc (h : ClsHead) : String := orDefault h.desc (descFromName h
 
 /-- `_load_test`: every metadata field of the declaration is copied onto the test. -/
 def baseTest (d : TestDecl) : Test :=
-  { name := d.testName, desc := d.testDesc, rank := d.rank, md := d.md, disabled := d.disabled, deps := d.deps, params := [] }
+  { name := d.testName, desc := d.testDesc, rank := d.rank, md := d.md, disabled := d.disabled, deps := d.deps, params := [],
+    args := d.args }
 
 /-- name and description of the `nb`-th (1-based) parameter set; an absent `{key}` renders as the empty text
     here — the loader raises `KeyError` there (`applyNaming`), and `loadSuite_ok_eq` only speaks of loads that succeed -/
@@ -154,8 +179,15 @@ structure Keyed (α : Type) where
 
 def subOrder {α : Type} (l : List (Keyed α)) : List (Keyed α) := discover Keyed.attr (fun k => (k.rank : Int)) l
 
+/-- `Suite(suite_obj, …)` + the `add_hook` loop of `load_suite_from_class`: injected fixtures and hooks are read from the
+    INSTANCE (whatever layer holds them) -/
 def headOf (h : ClsHead) : SuiteHead :=
-  { name := h.suiteName, desc := h.suiteDesc, rank := h.rank, md := h.md, disabled := h.disabled }
+  { name := h.suiteName, desc := h.suiteDesc, rank := h.rank, md := h.md, disabled := h.disabled
+    injected := SuiteObj.injectedOf h.obj
+    setupSuite := SuiteObj.hookParams h.obj "setup_suite"
+    teardownSuite := (SuiteObj.hookParams h.obj "teardown_suite").isSome
+    setupTest := (SuiteObj.hookParams h.obj "setup_test").isSome
+    teardownTest := (SuiteObj.hookParams h.obj "teardown_test").isSome }
 
 mutual
 /-- **The suite a class stands for**: its tests are the expansions of its test methods in declaration
@@ -309,16 +341,21 @@ end
 
 /-! ## Bridge to the run-level project syntax (`Model/Run.lean`) -/
 
+/-- dependencies are the PATH arguments here; callables are replaced by the paths they select beforehand (`resolvePreds`) -/
 def toSpecTest (t : Test) : Run.TestSpec :=
   { name := t.name, rank := t.rank, disabled := t.disabled.isDisabled
     disabledReason := (match t.disabled with | .reason _ => true | _ => false)
-    deps := t.deps
-    fixtures := []       -- the arguments of a parametrized test are its parameters, not fixtures (`Test.get_fixtures`)
+    deps := t.deps.filterMap DepArg.path?
+    fixtures := t.fixtures   -- the arguments that are not parameters of the test (`Test.get_fixtures`)
     script := [] }
+
+def hookScript (b : Bool) : Option Run.Script := if b then some [] else none
 
 mutual
 def toSpec : Suite → Run.SuiteSpec
-  | .mk h ts subs => .mk h.name h.rank h.disabled.isDisabled none none none none [] (ts.map toSpecTest) (toSpecs subs)
+  | .mk h ts subs =>
+    .mk h.name h.rank h.disabled.isDisabled (h.setupSuite.map (fun ps => (ps, []))) (hookScript h.teardownSuite)
+      (hookScript h.setupTest) (hookScript h.teardownTest) (h.injected.map (·.1)) (ts.map toSpecTest) (toSpecs subs)
 def toSpecs : List Suite → List Run.SuiteSpec
   | [] => []
   | s :: rest => toSpec s :: toSpecs rest
@@ -327,5 +364,117 @@ end
 /-- the project `run_suites(suites, …, force_disabled, stop_on_failure, nb_threads)` receives -/
 def projOf (suites : List Suite) (nbThreads : Nat) (forceDisabled stopOnFailure : Bool) : Run.Proj :=
   { fixtures := [], suites := toSpecs suites, nbThreads := nbThreads, forceDisabled := forceDisabled, stopOnFailure := stopOnFailure }
+
+/-- the same with the project's fixture registry (`project.load_fixtures()`: not part of the suite classes) -/
+def projOfF (fixtures : List Run.Fx) (suites : List Suite) (nbThreads : Nat) (forceDisabled stopOnFailure : Bool) : Run.Proj :=
+  { projOf suites nbThreads forceDisabled stopOnFailure with fixtures := fixtures }
+
+/-! ## Decorators (`suite/builder.py`): each one is a transformer of the metadata of the decorated object
+
+    Decorators are APPLIED bottom-up; `decorate` folds them in application order over the empty metadata.
+    `tags`, `link` and `depends_on` EXTEND a list, `prop` sets a dict entry, `disabled` / `hidden` / `parametrized` /
+    `test` / `suite` assign. -/
+
+inductive Deco where
+  | test (desc name : Option String)                       -- `@lcc.test(description, name)`
+  | suite (desc name : Option String) (rank : Option Nat)  -- `@lcc.suite(description, name, rank)`
+  | disabled (reason : Option String)                      -- `@lcc.disabled(reason)`: `reason if reason else True`
+  | tags (ts : List String)                                -- `md.tags.extend(tag_names)`
+  | prop (k v : String)                                    -- `md.properties[key] = value`
+  | link (url : String) (name : Option String)             -- `md.links.append((url, name))`
+  | hidden                                                 -- `visible_if(lambda _: False)`
+  | dependsOn (args : List DepArg)                         -- `md.dependencies.extend(deps)`
+  | parametrized (sets : List Params) (n : Naming)
+
+def disabledOf (reason : Option String) : Disabled :=
+  match reason with
+  | none => .yes
+  | some s => if s = "" then .yes else .reason s
+
+def mdApply (m : Meta) : Deco → Meta
+  | .tags ts => { m with tags := m.tags ++ ts }
+  | .prop k v => { m with props := SuiteObj.dictSet m.props k v }
+  | .link u n => { m with links := m.links ++ [(u, n)] }
+  | _ => m
+
+/-- one decorator applied to a test function -/
+def applyDeco (d : TestDecl) (c : Deco) : TestDecl :=
+  match c with
+  | .test desc name => { d with desc := desc, name := name }
+  | .disabled r => { d with disabled := disabledOf r }
+  | .hidden => { d with hidden := true }
+  | .dependsOn args => { d with deps := d.deps ++ args }
+  | .parametrized sets n => { d with param := some (sets, n) }
+  | .suite _ _ _ => d
+  | c => { d with md := mdApply d.md c }
+
+/-- **the declaration a decorated method stands for**: the decorators folded, in application order, over the bare
+    function (`attr` = its name, `args` = its parameters after `self`, `rank` = what the counter gave `@lcc.test`) -/
+def decorate (attr : String) (rank : Nat) (args : List String) (decos : List Deco) : TestDecl :=
+  decos.foldl applyDeco { attr := attr, rank := rank, args := args }
+
+/-- one decorator applied to a suite class (`depends_on` / `parametrized` on a class are rejected by assertions of the
+    decorators themselves; they are not part of a class that could be imported) -/
+def applyClsDeco (h : ClsHead) (c : Deco) : ClsHead :=
+  match c with
+  | .suite desc name rank => { h with desc := desc, name := name, rank := rank.getD h.rank }
+  | .disabled r => { h with disabled := disabledOf r }
+  | .hidden => { h with hidden := true }
+  | .test _ _ => h
+  | .dependsOn _ => h
+  | .parametrized _ _ => h
+  | c => { h with md := mdApply h.md c }
+
+def decorateCls (attr : String) (rank : Nat) (obj : SuiteObj.Obj) (decos : List Deco) : ClsHead :=
+  decos.foldl applyClsDeco { attr := attr, rank := rank, obj := obj }
+
+/-- the arguments of the `depends_on` decorators among `decos` -/
+def depArgs : Deco → List DepArg
+  | .dependsOn args => args
+  | _ => []
+
+/-! ## Dependencies: callables resolved, validation (`resolve_tests_dependencies`, model `Model/Deps.lean`) -/
+
+def dotted (p : Path) : String := ".".intercalate p
+
+/-- `_normalize_test_dependencies` on one test: a path argument stays, a callable becomes the paths of the OTHER tests of
+    the project it selects, in project order -/
+def resolveTest (ι : String → Path → Test → Bool) (all : List (Path × Test)) (self : Path) (t : Test) : Test :=
+  { t with deps := t.deps.flatMap (fun d => match d with
+      | .path p => [.path p]
+      | .pred k => (all.filter (fun pt => pt.1 != self && ι k pt.1 pt.2)).map (fun pt => DepArg.path pt.1)) }
+
+mutual
+def resolveSuite (ι : String → Path → Test → Bool) (all : List (Path × Test)) (parent : Path) : Suite → Suite
+  | .mk h ts subs =>
+    .mk h (ts.map (fun t => resolveTest ι all (parent ++ [h.name] ++ [t.name]) t)) (resolveSuitesIn ι all (parent ++ [h.name]) subs)
+def resolveSuitesIn (ι : String → Path → Test → Bool) (all : List (Path × Test)) (parent : Path) : List Suite → List Suite
+  | [] => []
+  | s :: rest => resolveSuite ι all parent s :: resolveSuitesIn ι all parent rest
+end
+
+/-- the tree with every callable dependency replaced by the paths it selects -/
+def resolvePreds (ι : String → Path → Test → Bool) (ss : List Suite) : List Suite :=
+  resolveSuitesIn ι (suitesTests [] ss) [] ss
+
+/-- a loaded test as `resolve_tests_dependencies` sees it (`flatten_tests_as_dict`: keyed by dotted path) -/
+def toDepsT (ι : String → Path → Test → Bool) (all : List (Path × Test)) (pt : Path × Test) : Deps.T :=
+  { path := dotted pt.1
+    deps := pt.2.deps.map (fun d => match d with
+      | .path p => Deps.Dep.path (dotted p)
+      | .pred k => Deps.Dep.pred ((all.filter (fun qu => ι k qu.1 qu.2)).map (fun qu => dotted qu.1))) }
+
+def depsTests (ι : String → Path → Test → Bool) (ss : List Suite) : List Deps.T :=
+  (suitesTests [] ss).map (toDepsT ι (suitesTests [] ss))
+
+/-- **`PreparedProject.create`: `resolve_tests_dependencies(suites, all_suites)`** — `keep` = the test paths a filter
+    leaves in the run (`none`: no filter, everything is scheduled) -/
+def validate (ι : String → Path → Test → Bool) (ss : List Suite) (keep : Option (List Path)) :
+    Except Deps.Err (List (String × List String)) :=
+  let all := depsTests ι ss
+  let sched := match keep with
+    | none => all
+    | some ks => all.filter (fun t => ks.any (fun k => dotted k == t.path))
+  Deps.resolve sched all
 
 end LccModel.Expand
